@@ -13,9 +13,9 @@ echo "== demonstration with the patch"
 cargo build --release -p capy --offline 2>&1 | tail -1
 ( cd $OUT && timeout 600 bash ./run.sh > /tmp/seed/$ID/demo_with.txt 2>&1; echo "rc=$?" >> /tmp/seed/$ID/demo_with.txt ); tail -3 /tmp/seed/$ID/demo_with.txt
 echo "== demonstration without the patch"
-git stash -q
+git checkout -q -- .   # (no `git stash`: the stash is shared by all worktrees of a repository)
 cargo build --release -p capy --offline 2>&1 | tail -1
 ( cd $OUT && timeout 600 bash ./run.sh > /tmp/seed/$ID/demo_without.txt 2>&1; echo "rc=$?" >> /tmp/seed/$ID/demo_without.txt ); tail -3 /tmp/seed/$ID/demo_without.txt
-git stash pop -q
+git apply /tmp/seed/$ID/current.diff
 W=$(tail -1 /tmp/seed/$ID/demo_with.txt); WO=$(tail -1 /tmp/seed/$ID/demo_without.txt)
 echo "CONFIRM_DEMO with_patch:$W without_patch:$WO"
